@@ -71,7 +71,21 @@ fn gen(rng: &mut Rng) -> Program {
     let npre = rng.range(1, 6) as usize;
     let pre = gen_ops(rng, ndbs, npre, &mut uniq, true);
     let nmid = rng.range(1, 5) as usize;
-    let mid = gen_ops(rng, ndbs, nmid, &mut uniq, true);
+    let mut mid = gen_ops(rng, ndbs, nmid, &mut uniq, true);
+    if rng.chance(1, 4) {
+        // many new keys whose records are long in the keys file and short in the values file (or the
+        // other way round): the two 250-byte writer buffers then spill at different moments and a
+        // record can be cut anywhere
+        let n = rng.range(6, 30) as usize;
+        let long_values = rng.chance(1, 4);
+        let db = rng.below(ndbs as u64) as usize;
+        for j in 0..n {
+            uniq += 1;
+            let key = format!("{}{}", "n".repeat(rng.range(1, 70) as usize), j);
+            let val = if long_values { format!("{}{}", "v".repeat(rng.range(1, 90) as usize), uniq) } else { format!("s{}", uniq) };
+            mid.push(Op::Set { db, key, val });
+        }
+    }
     Program {
         dbs,
         pre,
@@ -310,7 +324,7 @@ impl Property for C11 {
         (1_200, 6_000)
     }
     fn rule(&self) -> &'static str {
-        "dataset pairs (D0 persisted by a completed snapshot, D1 = D0 + 1-5 of {set,remove,increment}) over 4 keys x 1-2 databases, values smaller and larger than the 250-byte writer buffers, optional earlier reclaiming snapshot, interrupted snapshot incremental or reclaiming. A crash-free run counts the n mutating disk calls (create/write/rename/unlink/mkdir, including every BufWriter spill, the key map, the oplog-valid flag, metadata and concurrent oplog appends) between the snapshot request and its completion; then the node is killed before and after call k and restarted: quick = 6 sampled (k,before/after) per dataset, thorough = all 2n. evaluations = dataset pairs; coverage.crash_runs = simulated kill+restart executions. Non-trivial: the kill landed inside the window and the node was restarted. distinct = distinct (dataset, crash point)."
+        "dataset pairs (D0 persisted by a completed snapshot, D1 = D0 + 1-5 of {set,remove,increment}) over 4 keys x 1-2 databases (a quarter of the datasets add 6-30 new keys with names of 1-70 bytes and short or long values, so that the keys and values writer buffers spill at different moments), values smaller and larger than the 250-byte writer buffers, optional earlier reclaiming snapshot, interrupted snapshot incremental or reclaiming. A crash-free run counts the n mutating disk calls (create/write/rename/unlink/mkdir, including every BufWriter spill, the key map, the oplog-valid flag, metadata and concurrent oplog appends) between the snapshot request and its completion; then the node is killed before and after call k and restarted: quick = 6 sampled (k,before/after) per dataset, thorough = all 2n. evaluations = dataset pairs; coverage.crash_runs = simulated kill+restart executions. Non-trivial: the kill landed inside the window and the node was restarted. distinct = distinct (dataset, crash point)."
     }
     fn assumptions(&self) -> Vec<String> {
         vec![
